@@ -2111,3 +2111,49 @@ def _r1_10(rep):
 
 
 RULES.rule("R1.10", "nested types of class templates are named with their implicit generic arguments at every embedding site", floor=19)(_r1_10)
+
+
+def _r1_11(rep):
+    """A function whose ABI the selected Rust target cannot name must not be emitted.  `FunctionSig::abi` applies `--override-abi`
+    first and gates the RESULT; gating the ABI clang reported instead lets `--override-abi f=vectorcall` emit
+    `unsafe extern "vectorcall"` for a stable target (E0658).  The gate is C14's R14.3, run here so that C01's own check reports
+    it."""
+    import c14
+    c14.r14_3(rep)
+
+
+RULES.rule("R1.11", "constructs a target cannot compile are gated on what is actually emitted (shared with C14 R14.3)", floor=40)(_r1_11)
+
+
+def _r1_12(rep):
+    """A typedef that has the same Rust name as the enum it aliases is not generated (`typedef enum foo {..} foo;`); a use of it
+    under `--default-enum-style moduleconsts` must then be spelled `foo::Type`, through the enum's module.
+    `Item::is_constified_enum_module` decides that hop, `Type::codegen` decides whether the typedef exists; both have to compare
+    the names bindgen EMITS (canonical name / path).  Comparing C spellings (`Type::name()`) makes
+    `namespace ui { typedef gfx::Color Color; }` hop although `ui_Color` is generated as an alias: uses are spelled
+    `ui_Color::Type` (E0223)."""
+    prog = rep.prog
+    b = rep.need(prog.fn("ir::item::Item::is_constified_enum_module"), "Item::is_constified_enum_module")
+    rec = [c for c in b.nodes if c["k"] in ("MCall", "Call") and str(c.get("resolved") or c.get("callee") or "") == b.path]
+    rep.need(rec, "the hop through a same-named alias in is_constified_enum_module")
+    for c in rec:
+        tests = [g for pol, kind, g in b.guards(c) if kind == "cond" and pol and strip(g).get("k") == "Binary" and strip(g)["op"] == "=="]
+        ok = bool(tests)
+        how = []
+        for g in tests:
+            e = strip(g)
+            for side in (e["l"], e["r"]):
+                src = b.canon(side, 6)
+                emitted = "canonical_name(" in src or "canonical_path(" in src
+                how.append(src[:60])
+                ok = ok and emitted
+        rep.check(ok, "alias-hop-compares-emitted-names", "the hop is taken when the canonical (emitted) names coincide" if ok else
+                  "the hop is decided by comparing %s: the alias codegen decides by canonical path, the two disagree for a typedef of an "
+                  "enum from another namespace" % " == ".join(how[:2]), b.loc(c))
+    tb = rep.need(prog.impl_fn("codegen::CodeGenerator", "ir::ty::Type", "codegen"), "<Type as CodeGenerator>::codegen")
+    skip = [n for n in tb.nodes if n["k"] == "If" and tb.diverges(n["then"]) and "canonical_path(" in tb.canon(n["cond"], 6) and
+            strip(n["cond"]).get("k") == "Binary" and strip(n["cond"])["op"] == "=="]
+    rep.check(bool(skip), "alias-skip-compares-canonical-path", "Type::codegen skips an alias whose canonical path equals its target's", tb.loc(tb.root))
+
+
+RULES.rule("R1.12", "\"this typedef is not generated\" is decided from emitted names at both sites", floor=2)(_r1_12)
